@@ -748,7 +748,7 @@ def run(ctx):
         strict = (pi % 7 == 3)
         a = analyse(src, strict)
         if a["exc"]:
-            if a["exc"][0] == "ParseError":
+            if a["exc"][0] in ("ParseError", "Timeout", "CaseTimeout"):
                 continue
             nexc += 1
             failing.append({"what": f"raise: LoopAnalysis.run raised {a['exc']}", "sig": ["C08", "raise"] + [str(x) for x in a["exc"]],
